@@ -23,18 +23,32 @@ theorem len_leaf (m a b c N : ℝ) (hm : 0 ≤ m) (hQ : m * m * (a * a + b * b +
   rw [this, Real.mul_self_sqrt hQ0, hQ]
 
 set_option maxHeartbeats 4000000 in
-/-- the real `Vec3::length` (all 65 paths, `lengthTiny` included) satisfies the length specification over ℝ with the real
-square root, for every value of `numeric_limits<T>::min ()` -/
-theorem lenSpec_real (tmin : ℝ) : LenSpec (Gen.V3.length tmin Real.sqrt) := by
+/-- the real `Vec3::length` (all 129 paths, `lengthTiny` included) satisfies the length specification over ℝ with the real
+square root, for every value of `numeric_limits<T>::min ()` and `max ()` -/
+theorem lenSpec_real (tmin tmax : ℝ) : LenSpec (Gen.V3.length tmin tmax Real.sqrt) := by
   intro v
   rcases v with ⟨x, y, z⟩
-  simp only [Gen.V3.length, normSq]
-  split_ifs <;>
-    first
-    | (refine len_leaf _ _ _ _ _ (by linarith) ?_; (try simp only [neg_eq_zero] at *); field_simp)
-    | (have hx : x = 0 := by linarith
-       have hy : y = 0 := by linarith
-       have hz : z = 0 := by linarith
-       subst hx hy hz; simp)
-    | exact ⟨Real.sqrt_nonneg _, Real.mul_self_sqrt (by have := mul_self_nonneg x; have := mul_self_nonneg y; have := mul_self_nonneg z; linarith)⟩
+  simp (config := { maxSteps := 8000000 }) only [Gen.V3.length, normSq]
+  -- outermost: squares underflow -> lengthTiny; squares overflow -> lengthTiny; else sqrt
+  by_cases h1 : x * x + y * y + z * z < 2 * tmin
+  · rw [if_pos h1]
+    split_ifs <;>
+      first
+      | (refine len_leaf _ _ _ _ _ (by linarith) ?_; (try simp only [neg_eq_zero] at *); field_simp)
+      | (have hx : x = 0 := by linarith
+         have hy : y = 0 := by linarith
+         have hz : z = 0 := by linarith
+         subst hx hy hz; simp)
+  · rw [if_neg h1]
+    by_cases h2 : tmax < x * x + y * y + z * z
+    · rw [if_pos h2]
+      split_ifs <;>
+        first
+        | (refine len_leaf _ _ _ _ _ (by linarith) ?_; (try simp only [neg_eq_zero] at *); field_simp)
+        | (have hx : x = 0 := by linarith
+           have hy : y = 0 := by linarith
+           have hz : z = 0 := by linarith
+           subst hx hy hz; simp)
+    · rw [if_neg h2]
+      exact ⟨Real.sqrt_nonneg _, Real.mul_self_sqrt (by have := mul_self_nonneg x; have := mul_self_nonneg y; have := mul_self_nonneg z; linarith)⟩
 end ImathVerif.C16
